@@ -150,7 +150,19 @@ func isNil(v reflect.Value) bool {
 // Script values are bound and passed by value: a name or parameter that
 // received a slice element must not change when the slice is modified later.
 func detachValue(rv reflect.Value) reflect.Value {
+	if rv.Kind() == reflect.Interface && !rv.IsNil() {
+		if k := rv.Elem().Kind(); k == reflect.Struct || k == reflect.Array {
+			rv = rv.Elem() // a struct or array boxed in an interface slot: never addressable
+		}
+	}
 	if !rv.CanAddr() {
+		if k := rv.Kind(); (k == reflect.Struct || k == reflect.Array) && rv.CanInterface() {
+			// read out of an untyped list or map: the name gets a copy in a cell of its
+			// own, so that its fields and elements are assignable through the name
+			value := reflect.New(rv.Type()).Elem()
+			value.Set(rv)
+			return value
+		}
 		return rv
 	}
 	if rv.Kind() == reflect.Interface {
